@@ -308,7 +308,69 @@ static void run_fpiter(const Case& c) {
     print_data("out", ((steps % 2 == 1) ? g2 : g1)->getData(), static_cast<size_t>(n) * n);
 }
 
+// dynrf <id> <n> <it> <nb> <lin|sin> <steps> ; extra = qmin qmax pmin pmax qscale pscale angle f_RF revpart V_RF V0
+//   phasespread amplspread modampl modtimeincr ; data ; ops = a (apply) f (flush getPastModulation) s (static reference apply)
+static void run_dynrf(const Case& c) {
+    uint32_t n = std::stoul(c.head[2]), it = std::stoul(c.head[3]), nb = std::stoul(c.head[4]);
+    bool lin = c.head[5] == "lin";
+    uint32_t steps = std::stoul(c.head[6]);
+    const auto& e = c.extra;
+    PhaseSpace::resetSize(n, nb);
+    auto in = mkps(n, nb, c.data.data(), e[0], e[1], e[2], e[3], e[4], e[5]);
+    auto out = mkps(n, nb, nullptr, e[0], e[1], e[2], e[3], e[4], e[5]);
+    auto out2 = mkps(n, nb, nullptr, e[0], e[1], e[2], e[3], e[4], e[5]);
+    auto itp = static_cast<SourceMap::InterpolationType>(it);
+    std::unique_ptr<ProbeDyn> d;
+    std::unique_ptr<ProbeRF> st;
+    if (lin) {
+        d.reset(new ProbeDyn(in, out, n, n, e[6], static_cast<double>(e[8]), static_cast<double>(e[7]), e[11], e[12], e[13],
+                             static_cast<double>(e[14]), steps, itp, false, nullptr));
+        st.reset(new ProbeRF(in, out2, e[6], e[7], itp, false, nullptr));
+    } else {
+        d.reset(new ProbeDyn(in, out, n, n, static_cast<double>(e[8]), static_cast<double>(e[9]), static_cast<double>(e[7]),
+                             static_cast<double>(e[10]), e[11], e[12], e[13], static_cast<double>(e[14]), steps, itp, false, nullptr));
+        st.reset(new ProbeRF(in, out2, e[8], e[9], e[7], e[10], itp, false, nullptr));
+    }
+    std::cout << "case " << c.id << '\n';
+    float modtimedelta = static_cast<float>(6.283185307179586476925286766559 * static_cast<double>(e[14]));
+    std::cout << "aux " << hx(std::tan(d->angle())) << ' ' << hx(d->bl2phase()) << ' ' << hx(d->syncphase()) << ' ' << hx(modtimedelta) << '\n';
+    std::cout << "aux2";
+    for (uint32_t i = 0; i < steps; i++) std::cout << ' ' << hx(std::sin(modtimedelta * (i)));
+    std::cout << '\n';
+    std::cout << "ints " << d->lastbunch() << '\n';
+    std::vector<std::array<meshaxis_t, 2>> all;
+    uint32_t applied = 0;
+    for (const auto& op : c.words) {
+        if (op == "a") {
+            if (applied >= steps) { std::cout << "error queue-exhausted\n"; break; }
+            d->apply(); applied++;
+            std::cout << "ops a\n";
+            print_data("off", d->offsets().data(), n);
+            print_data("out", out->getData(), static_cast<size_t>(n) * n * nb);
+        } else if (op == "s") {
+            st->apply();
+            std::cout << "ops s\n";
+            print_data("off", st->offsets().data(), n);
+            print_data("out", out2->getData(), static_cast<size_t>(n) * n * nb);
+        } else if (op == "f") {
+            auto past = d->getPastModulation();
+            std::cout << "ops f\n" << "vals";
+            for (auto& p : past) { std::cout << ' ' << hx(p[0]) << ' ' << hx(p[1]); all.push_back(p); }
+            std::cout << '\n';
+        }
+    }
+    auto past = d->getPastModulation();
+    std::cout << "ops f\n" << "vals";
+    for (auto& p : past) { std::cout << ' ' << hx(p[0]) << ' ' << hx(p[1]); all.push_back(p); }
+    std::cout << '\n';
+    // all entries in order of use, for the model (not compared)
+    std::cout << "aux3";
+    for (auto& p : all) std::cout << ' ' << hx(p[0]) << ' ' << hx(p[1]);
+    std::cout << '\n';
+}
+
 static bool dispatch_more(const Case& c) {
+    if (c.kind == "dynrf") { run_dynrf(c); return true; }
     if (c.kind == "fpiter") { run_fpiter(c); return true; }
     if (c.kind == "opts") { run_opts(c); return true; }
     if (c.kind == "ef") { run_ef(c); return true; }
